@@ -28,17 +28,20 @@ def one(name):
         p = subprocess.run(["patch", "-p1", "--fuzz=3", "-s", "-i", os.path.join(d, "patch.diff")], cwd=s + "/repo", capture_output=True, text=True)
         if p.returncode != 0:
             return name, None, None, "PATCH DOES NOT APPLY: " + (p.stdout + p.stderr)[:300]
-        env = dict(os.environ, VERIF_REPO=s + "/repo", VERIF_BUILD=s + "/build", VERIF_EVIDENCE=s + "/evidence", VERIF_REPLAY_OUT=s + "/replay")
+        env = dict(os.environ, VERIF_REPO=s + "/repo", VERIF_BUILD=s + "/build", VERIF_EVIDENCE=s + "/evidence", VERIF_REPLAY_OUT=s + "/replay", VERIF_NO_DRIVERS="1")
         vio, und, details = [], [], {}
-        for prop in props:
-            r = subprocess.run([os.path.join(V, "bin/check"), prop, "--tier", "quick"], env=env, capture_output=True, text=True, cwd=V)
-            if r.returncode == 1:
-                lines = [l for l in r.stdout.split("\n") if l.startswith("failed obligation")]
-                vio.append(prop)
-                details[prop] = lines[:6]
-            elif r.returncode == 2:
-                und.append(prop)
-                details[prop] = [l for l in r.stdout.split("\n") if l.startswith("UNDECIDED")][:3]
+        r = subprocess.run([os.path.join(V, "bin/check"), "--all"], env=env, capture_output=True, text=True, cwd=V)
+        cur = []
+        for l in r.stdout.split("\n"):
+            if l.startswith("RESULT "):
+                prop = l.split("property=")[1].split()[0]; rc = int(l.split("exit=")[1])
+                if rc == 1:
+                    vio.append(prop); details[prop] = [x for x in cur if x.startswith("failed obligation")][:6]
+                elif rc == 2:
+                    und.append(prop); details[prop] = [x for x in cur if x.startswith("UNDECIDED")][:3]
+                cur = []
+            else:
+                cur.append(l)
         return name, vio, und, details
     finally:
         shutil.rmtree(s, ignore_errors=True)
